@@ -2,7 +2,7 @@
 Tie: X (poll-granularity replay: same schedule, same outcomes AND same woken-waker lists).
 
 Coq: Model/DistChan.v (one Gallina function per operation of repartition/distributor_channels.rs over the module's own
-fields), Proofs/DistChanProofs.v + DistChanSteps.v + DistChanThms.v, Props/C15.v.
+fields), Proofs/DistChanProofs.v + DistChanSteps.v + DistChanThms.v, Props/C15.v; Model/DistChanFine.v = gate-access-granularity model, explored exhaustively within a preemption bound (a test).
 Harness: h_physplan/src/bin/c15.rs drives the real channels single-threaded at poll granularity with hand-rolled
 wakers (direct oracle against a plain FIFO reference, quiescence / deadlock judged by a fair hand-rolled executor),
 plus threaded tokio stress runs with a watchdog (oracle only)."""
@@ -175,10 +175,12 @@ def run(pid, tier, seed, replay):
         "traces_validated_against_impl": len(terms),
         "samples": [{k: good[i].get(k) for k in ("mode", "groups", "n", "ops")} for i in (0, min(7, len(good) - 1))] if good else [],
         "trusted_base": vlib.TRUSTED_COMMON + [
-            "each poll / clone / drop is ONE atomic step of the model; the Rust code holds the channel mutex for the whole body of SendFuture::poll, "
-            "RecvFuture::poll, DistributionReceiver::drop and the last-sender branch of DistributionSender::drop, but the gate (SeqCst atomic counter + "
-            "its own mutex) is shared between channels: interleavings of two operations on DIFFERENT channels at the level of individual gate accesses "
-            "are not modelled; they are exercised by the threaded stress runs only (oracle only)",
+            "the theorems treat each poll / clone / drop as ONE atomic step; the Rust code holds the channel mutex for the whole body of SendFuture::poll, "
+            "RecvFuture::poll, DistributionReceiver::drop and the last-sender section of DistributionSender::drop, but the gate (SeqCst atomic counter + "
+            "its own mutex) is shared between channels and n_senders is decremented outside the channel mutex: interleavings at the level of individual "
+            "gate / n_senders accesses are only explored (bounded, exhaustively within a preemption bound) on Model/DistChanFine.v and exercised by the "
+            "threaded stress runs, not proved; Model/DistChanFine.v itself is tied to the implementation only by reading the source (same statements, same "
+            "order) and by the concurrent-drop probe, which reproduces on the real code the one anomaly the exploration found",
             "sequentially consistent memory (all atomics in the module are SeqCst); parking_lot mutexes",
             "the hand-rolled executor of the harness (raw pointers give the futures a 'static borrow of their handle; pending futures of a handle are "
             "cancelled before the handle is dropped, as the borrow checker would force)",
